@@ -30,13 +30,22 @@ CONSTANTS MaxN,      \* table sizes 0..MaxN
 (* "x" stands for any ASCII character without a function of its own;        *)
 (* "U+00E9" and "U+65E5" for characters whose UTF-8 form has 2 and 3 bytes  *)
 (* (the names are translated to the characters when talking to the driver). *)
-CharKeys    == {"j", "k", "g", "q", "a", "c", "v", ".", "f", "l", "-", "/", "x", "U+00E9", "U+65E5"}
+(* "G" "J" "K" "Q" are the capitals the help line prints; the handler binds  *)
+(* the lower-case letters only, so the design treats them like "x" - but a  *)
+(* handler that quits on "Q" does what the help line documents (QuitKeys).  *)
+CharKeys    == {"j", "k", "g", "q", "a", "c", "v", ".", "f", "l", "-", "/", "x", "U+00E9", "U+65E5",
+                "G", "J", "K", "Q"}
 Utf8Len(k)  == CASE k = "U+00E9" -> 2 [] k = "U+65E5" -> 3 [] OTHER -> 1
-SpecialKeys == {"Esc", "Enter", "Backspace", "Up", "Down", "Home", "PageUp"}
+(* "End", "PageDown", "Tab", "Delete", "Left", "F1": keys without a function *)
+(* of their own (a key press must still be handled without a panic and must *)
+(* leave the selection in range and the flags alone)                        *)
+SpecialKeys == {"Esc", "Enter", "Backspace", "Up", "Down", "Home", "PageUp",
+                "End", "PageDown", "Tab", "Delete", "Left", "F1"}
 Keys        == CharKeys \cup SpecialKeys \cup {"Tick"}
 
 (* documented keys of the three flags                                      *)
-QuitKeys   == {"q", "Esc"}
+QuitKeys   == {"q", "Q", "Esc"}      \* documented ("(Esc/Q) quit"): where the quit flag MAY change
+BoundQuit  == {"q", "Esc"}           \* what the handler binds (design level)
 SearchKeys == {"/", "Enter", "Esc"}
 SortOf(k)  == CASE k = "a" -> "ALTITUDE" [] k = "c" -> "CALLSIGN" [] k = "v" -> "VRATE"
                 [] k = "." -> "COUNT"    [] k = "f" -> "FIRST"    [] k = "l" -> "LAST"
@@ -90,7 +99,7 @@ TableStep(s, k) ==
   CASE k \in {"j", "Down"}           -> [s EXCEPT !.sel = Down1(s.n, s.sel)]
     [] k \in {"k", "Up"}             -> [s EXCEPT !.sel = Up1(s.n, s.sel)]
     [] k \in {"g", "PageUp", "Home"} -> [s EXCEPT !.sel = 0]
-    [] k \in QuitKeys                -> [s EXCEPT !.quit = TRUE]
+    [] k \in BoundQuit               -> [s EXCEPT !.quit = TRUE]
     [] k \in SortKeys                -> [s EXCEPT !.sortKey = SortOf(k)]
     [] k = OrderKey                  -> [s EXCEPT !.sortAsc = ~@]
     [] k = "/"                       -> [s EXCEPT !.search = TRUE]
